@@ -105,6 +105,7 @@ type NodeDesc struct {
 	A            [2]int
 	SI, MI       []IVal
 	HasSI, HasMI bool
+	PSNil, PMNil bool   // PS / PM point to a NIL slice / map (pointer to a nil collection)
 	L            string // "", func, sendchan, recvchan, complex, complexok, raw, oddmbs, evenmbs, failm, panicm, failselfer, unsafeptr
 	LPtr         bool   // leaf behind a pointer (failm/panicm/failselfer)
 }
@@ -238,7 +239,11 @@ func (b *built) fill(d *GraphDesc) {
 		f = append(f, ptrTerm(nd.EP))
 		n.EI, t = ival(nd.EI)
 		f = append(f, t)
-		if nd.PS != nil {
+		if nd.PSNil {
+			var s []*N
+			n.PS = &s
+			f = append(f, fmt.Sprintf("VPtr %d", alloc("VNil NSlice")))
+		} else if nd.PS != nil {
 			s, t := ptrs(nd.PS)
 			n.PS = &s
 			bc := alloc(t)
@@ -246,7 +251,11 @@ func (b *built) fill(d *GraphDesc) {
 		} else {
 			f = append(f, "VNil NPtr")
 		}
-		if nd.PM != nil {
+		if nd.PMNil {
+			var m map[string]*N
+			n.PM = &m
+			f = append(f, fmt.Sprintf("VPtr %d", alloc("VNil NMap")))
+		} else if nd.PM != nil {
 			m, t := pmap(nd.PM)
 			n.PM = &m
 			bc := alloc(t)
@@ -619,10 +628,18 @@ func randGraph(r *vh.Rng, m genMode, leaf string, leafPtr bool) *GraphDesc {
 			nd.M = randTargets(r, i, k, m, 3)
 		}
 		if r.Chance(m.density, 12) {
-			nd.PS = randTargets(r, i, k, m, 2)
+			if r.Chance(1, 3) {
+				nd.PSNil = true
+			} else {
+				nd.PS = randTargets(r, i, k, m, 2)
+			}
 		}
 		if r.Chance(m.density, 12) {
-			nd.PM = randTargets(r, i, k, m, 2)
+			if r.Chance(1, 3) {
+				nd.PMNil = true
+			} else {
+				nd.PM = randTargets(r, i, k, m, 2)
+			}
 		}
 		nd.I = randIVal(r, i, k, m)
 		nd.EI = randIVal(r, i, k, m)
